@@ -844,3 +844,99 @@ theorem rowsMatch_frame (P : Project) (g : G) (t : Nat) (hT : ∀ v ∈ neighbou
 
 end Engine
 end Pytask
+
+/-! ## Reported unchanged ⇒ rows match (converse of `scan_unchanged`) -/
+namespace Pytask
+namespace Engine
+
+theorem scan_unchanged_inv (P : Project) (g : G) (w : World) (t : Nat) (vs : List Nat) (needs : Bool)
+    (h : scan P g w t needs vs = .unchanged) :
+    needs = false ∧ ∀ v ∈ vs, ∃ x, stateOf P w v = some x ∧ lookup w.db (tv t, v) = some x := by
+  induction vs generalizing needs with
+  | nil =>
+    unfold scan at h
+    cases needs
+    · exact ⟨rfl, fun v hv => by cases hv⟩
+    · simp at h
+  | cons v vs ih =>
+    unfold scan at h
+    simp only [] at h
+    split at h
+    · cases h
+    split at h
+    · cases h
+    split at h
+    · rename_i hn
+      have := (ih true h).1
+      cases this
+    · rename_i hn
+      have hnf : needs = false := by simpa using hn
+      obtain ⟨hc, hrest⟩ := ih _ h
+      refine ⟨hnf, ?_⟩
+      intro x hx
+      rcases List.mem_cons.1 hx with rfl | hx
+      · unfold hasChanged at hc
+        cases hst : stateOf P w x with
+        | none => simp [hst] at hc
+        | some a =>
+          simp only [hst] at hc
+          cases hrow : lookup w.db (tv t, x) with
+          | none => simp [hrow] at hc
+          | some r =>
+            simp only [hrow] at hc
+            have : r = a := by simpa using hc
+            exact ⟨a, rfl, by rw [this]⟩
+      · exact hrest x hx
+
+theorem setupChain_source (P : Project) (g : G) (cfg : Cfg) (s : Sess) (t : TaskSpec) (order : List String) (r : Raised)
+    (hr : r ≠ .none) (h : setupChain P g cfg s t order = r) : ∃ n ∈ order, setupImpl P g cfg s t n = r := by
+  induction order with
+  | nil => simp [setupChain] at h; exact absurd h.symm hr
+  | cons n ns ih =>
+    unfold setupChain at h
+    cases hi : setupImpl P g cfg s t n <;> simp only [hi] at h
+    case none =>
+      obtain ⟨m, hm, hm'⟩ := ih h
+      exact ⟨m, List.mem_cons_of_mem _ hm, hm'⟩
+    all_goals exact ⟨n, by simp, by rw [hi, h]⟩
+
+theorem setupImpl_skippedUnchanged (P : Project) (g : G) (cfg : Cfg) (s : Sess) (t : TaskSpec) (name : String)
+    (h : setupImpl P g cfg s t name = .skippedUnchanged) :
+    scan P g s.w t.id cfg.force (neighbours g t.id) = .unchanged := by
+  unfold setupImpl at h
+  split at h
+  · repeat' split at h
+    all_goals cases h
+  split at h
+  · split at h
+    · simp only [] at h
+      split at h
+      · split at h <;> cases h
+      · cases h
+    · cases h
+  split at h
+  · split at h
+    · cases h
+    · split at h
+      · cases h
+      · cases h
+      · assumption
+  · cases h
+
+/-- `SKIP_UNCHANGED` is reported only when every row of the task matches the files (the "equivalently" clause of C02). -/
+theorem rowsMatch_of_skippedUnchanged (F : BodyFn) (P : Project) (g : G) (cfg : Cfg) (s : Sess) (t : TaskSpec)
+    (h : (runPhases F P g cfg s t).1 = .skippedUnchanged) : RowsMatch P g s.w t.id ∧ (runPhases F P g cfg s t).2 = s := by
+  unfold runPhases at h ⊢
+  cases hsc : setupChain P g cfg s t Generated.setupOrder <;> simp only [hsc] at h ⊢ <;> try (exact Raised.noConfusion h)
+  · -- `.none`: the body ran or the build is a dry-run; never `skippedUnchanged`
+    exfalso
+    by_cases hdry : cfg.dry = true
+    · simp [hdry] at h
+    · simp only [hdry, Bool.false_eq_true, if_false] at h
+      by_cases h1 : (runBody F t s.w.fs).2 = true <;>
+        by_cases h2 : (t.prods.any fun p => (lookup (runBody F t s.w.fs).1 p).isNone) = true <;> simp [h1, h2] at h
+  · obtain ⟨n, _, hn⟩ := setupChain_source P g cfg s t _ _ (by simp) hsc
+    exact ⟨(scan_unchanged_inv P g s.w t.id _ _ (setupImpl_skippedUnchanged P g cfg s t n hn)).2, trivial⟩
+
+end Engine
+end Pytask
